@@ -52,6 +52,9 @@ def item_xml(it, i, rnd, late_anchor):
         return f'<g transform="translate(3 -2)">{rect}</g>', ""
     if k == "gscale":
         return f'<g transform="scale(2)">{rect}</g>', ""
+    if k in ("usex", "usey", "usexy"):
+        off = ('x="20"' if "x" in k[3:] else "") + (' y="-10"' if "y" in k[3:] else "")
+        return f'<defs><rect id="ut{i}" x="{q(x1)}" y="{q(y1)}" width="{q(w)}" height="{q(h)}"/></defs><use href="#ut{i}" {off}/>', ""
     raise ValueError(k)
 
 
